@@ -375,6 +375,50 @@ func sharedFragments(a *advert.Advertised) []qcase {
 			}
 		}
 	}
+	// one response key selected twice in one selection set, the first (or the second) occurrence carrying a fragment:
+	// the two occurrences merge, nothing selected may get lost
+	for _, n := range order {
+		t := a.Types[n]
+		w := paths[n][0]
+		for i := range t.Fields {
+			f := &t.Fields[i]
+			ft := a.Types[f.Type.Named().Name]
+			call := f.Name + ": " + a.Call(f)
+			switch ft.Kind {
+			case "OBJECT":
+				all := a.Scalars(ft, 0)
+				if len(all) < 3 {
+					continue
+				}
+				h := len(all) / 2
+				def := " fragment F on " + ft.Name + " { " + a.Print(all[:h]) + " }"
+				inl := "... on " + ft.Name + " { " + a.Print(all[:h]) + " }"
+				rest := a.Print(all[h:])
+				root := []*advert.Sel{w("a", []*advert.Sel{{Alias: f.Name, Field: f, Sub: all}})}
+				for _, body := range []string{
+					call + " { ...F } " + call + " { " + rest + " }",
+					call + " { " + rest + " } " + call + " { ...F }",
+					call + " { " + inl + " } " + call + " { " + rest + " }",
+				} {
+					text := "{ " + a.Print([]*advert.Sel{w("a", []*advert.Sel{{Raw: body}})}) + " }"
+					if strings.Contains(body, "...F") {
+						text += def
+					}
+					out = append(out, qcase{text: text, root: root, wellFormed: true, kind: "same-key-twice-with-fragment"})
+				}
+			case "UNION":
+				if len(ft.PossibleTypes) < 2 {
+					continue
+				}
+				m1, m2 := ft.PossibleTypes[0].Name, ft.PossibleTypes[1].Name
+				s1, s2 := a.Scalars(a.Types[m1], 0), a.Scalars(a.Types[m2], 0)
+				on := map[string][]*advert.Sel{m1: s1, m2: s2}
+				root := []*advert.Sel{w("a", []*advert.Sel{{Alias: f.Name, Field: f, OnType: on}})}
+				body := call + " { ut: __typename ... on " + m1 + " { " + a.Print(s1) + " } } " + call + " { ... on " + m2 + " { " + a.Print(s2) + " } }"
+				out = append(out, qcase{text: "{ " + a.Print([]*advert.Sel{w("a", []*advert.Sel{{Raw: body}})}) + " }", root: root, wellFormed: true, kind: "same-key-twice-with-fragment"})
+			}
+		}
+	}
 	return out
 }
 
@@ -458,5 +502,5 @@ func run(rp *explore.Report, tier string) {
 
 func init() {
 	reg.Register(&reg.Harness{Property: "C14", Name: "c14/advertised", Level: "exploration", Run: run,
-		Rule: "fixture of Go shapes (all scalar widths, named scalars, enum, time, bytes, text-marshaler, pointers, slices of values/pointers/enums, nested and value structs, union, NonNullable / ListEntryNonNullable / Expensive / batch methods, NonNullable plain and batch methods (object and scalar pointers) that return nil for some objects, methods with NumParallelInvocations, null objects and lists of nulls, methods with every signature form, arguments incl. input objects) -> introspection JSON. From the JSON alone: every path of composite fields up to depth 2 (thorough 3), ending in all leaves / all fields / each field alone / the same field under two aliases (arguments filled from advertised input types), plus at every position the three ill-formedness kinds (unknown field, selection on a leaf, none on a composite), plus one named fragment (each field of each object type) spread at two positions: the same type twice (well-formed) or a second type that lacks the field or has it with the other leaf/composite kind (ill-formed), in both orders; plus one composite field selected under one alias with two different sub-selections at two paths to the same (long-lived) object. Oracle: ill-formed => rejected; well-formed => accepted, executes without error under FIFO and LIFO schedulers and inside a reactive rerunner, and the response conforms to the advertised types (exact aliases, lists, scalar JSON kinds, enum values, null only where nullable, list entries excepted)"})
+		Rule: "fixture of Go shapes (all scalar widths, named scalars, enum, time, bytes, text-marshaler, pointers, slices of values/pointers/enums, nested and value structs, union, NonNullable / ListEntryNonNullable / Expensive / batch methods, NonNullable plain and batch methods (object and scalar pointers) that return nil for some objects, methods with NumParallelInvocations, null objects and lists of nulls, methods with every signature form, arguments incl. input objects) -> introspection JSON. From the JSON alone: every path of composite fields up to depth 2 (thorough 3), ending in all leaves / all fields / each field alone / the same field under two aliases (arguments filled from advertised input types), plus at every position the three ill-formedness kinds (unknown field, selection on a leaf, none on a composite), plus one named fragment (each field of each object type) spread at two positions: the same type twice (well-formed) or a second type that lacks the field or has it with the other leaf/composite kind (ill-formed), in both orders; plus one composite field selected under one alias with two different sub-selections at two paths to the same (long-lived) object; plus one response key selected twice in one selection set with a named or inline fragment in the first or the second occurrence (objects and unions). Oracle: ill-formed => rejected; well-formed => accepted, executes without error under FIFO and LIFO schedulers and inside a reactive rerunner, and the response conforms to the advertised types (exact aliases, lists, scalar JSON kinds, enum values, null only where nullable, list entries excepted)"})
 }
